@@ -3,7 +3,8 @@
   mirroring mongokit/project.go) used by Props/C14.lean.
 
   Sections: §1 `$slice` windows, §2 `$elemMatch`, §3 the processing loop (flag projections,
-  inclusion/exclusion mixing), §4 exclusion results, §5 inclusion results, §6 overlays.
+  inclusion/exclusion mixing), §4 exclusion results, §5 inclusion results, §6 overlays, §7 single operator entries end to end,
+  §8 integer ranges of the `$slice` arithmetic.
 
   Strings: `String.splitOn` does not reduce in the kernel, so everything about dotted paths is
   stated over `Path = List String` with a hypothesis such as `splitPath p = [p]`; the concrete
@@ -951,5 +952,111 @@ theorem putAll_append (res : Doc) (a b : List (String × V)) :
     split
     · rfl
     · exact ih _
+
+/-! ## §7 a single operator entry, end to end -/
+
+/-- `{p: {$slice: k}}` on its own: the document with the array at top-level `p` replaced, in place,
+    by its window; all other fields untouched. (`hop` is a fact about the string literal.) -/
+theorem project_slice_count_toplevel (sch : SchemaEval) (d : Doc) (p : String) (v : V) (k : Int) (a : List V)
+    (hop : isOpKey "$slice" = true) (hp : isOpKey p = false) (hs : splitPath p = [p]) (hne : p ≠ "")
+    (hk : sliceInt v = some k) (ha : Get d p = .arr a) :
+    Project sch d [(p, .doc [("$slice", v)])] =
+      .ok (upsert d p (.arr (window a (countWindow a.length k)))) := by
+  have he : projEntry sch {} d p (.doc [("$slice", v)]) =
+      .ok (({} : PState).overlay p (.arr (window a (countWindow a.length k)))) := by
+    have h1 : ("$slice" == "") = false := by decide
+    simp only [projEntry, hp, hop, Bool.false_eq_true, ↓reduceIte, projOps, Bool.not_true, projOp, h1,
+      beq_self_eq_true, projectSlice_count {} d p v k a hk ha]
+  rw [Project_eq, projProcess_cons, he]
+  simp only [projProcess_nil, projectFinish, PState.overlay, mergeSet, List.any_nil, Bool.false_eq_true,
+    ↓reduceIte, List.nil_append, List.isEmpty_nil, Bool.not_true, Bool.false_and, List.foldl_nil]
+  rw [putAll_top [(p, _)] (by simp [hs, hne, V.isMissing])]
+  rfl
+
+/-- `{p: {$elemMatch: q}}` on its own (inclusion style): `_id` plus, if some element of the array at
+    top-level `p` matches, the field `p` holding exactly the first matching element. -/
+theorem project_elemMatch_toplevel (sch : SchemaEval) (d : Doc) (p : String) (q : Doc) (a : List V)
+    (hop : isOpKey "$elemMatch" = true) (hp : isOpKey p = false) (hs : splitPath p = [p]) (hne : p ≠ "")
+    (hpid : p ≠ "_id") (hid : (Get d "_id").isMissing = false) (ha : Get d p = .arr a) :
+    (∀ x, firstElemMatch sch q a = .ok (some x) →
+      Project sch d [(p, .doc [("$elemMatch", .doc q)])] = .ok [("_id", Get d "_id"), (p, .arr [x])]) ∧
+    (firstElemMatch sch q a = .ok none →
+      Project sch d [(p, .doc [("$elemMatch", .doc q)])] = .ok [("_id", Get d "_id")]) ∧
+    (∀ e, firstElemMatch sch q a = .error e →
+      Project sch d [(p, .doc [("$elemMatch", .doc q)])] = .error e) := by
+  have h1 : ("$elemMatch" == "") = false := by decide
+  have h2 : ("$elemMatch" == "$slice") = false := by decide
+  have hpid' : ("_id" == p) = false := by simpa using (fun e => hpid e.symm : ¬ "_id" = p)
+  obtain ⟨prev, hput⟩ := Put_top [] "_id" (Get d "_id") id_ne_empty hid
+  have hent : projEntry sch {} d p (.doc [("$elemMatch", .doc q)]) =
+      match projectElemMatch sch {} d p (.doc q) with
+      | .error e => .error e
+      | .ok s' => .ok s' := by
+    simp only [projEntry, hp, hop, Bool.false_eq_true, ↓reduceIte, projOps, Bool.not_true, projOp, h1, h2,
+      beq_self_eq_true]
+    split <;> simp_all
+  refine ⟨fun x hx => ?_, fun hx => ?_, fun e hx => ?_⟩
+  · rw [Project_eq, projProcess_cons, hent, projectElemMatch_found sch {} d p q a x ha hx]
+    simp only [projProcess_nil, projectFinish, PState.overlay, PState.elemMatchMark, mergeSet, List.any_nil,
+      Bool.false_eq_true, ↓reduceIte, List.nil_append, List.isEmpty_nil, Bool.not_true, Bool.and_false,
+      hput, List.isEmpty_cons, Bool.not_false, List.filter_cons, List.contains_cons, beq_self_eq_true,
+      Bool.true_or, List.filter_nil, List.filterMap_nil, putAll_nil]
+    rw [putAll_top [(p, _)] (by simp [hs, hne, V.isMissing])]
+    simp [upsert, hpid']
+  · rw [Project_eq, projProcess_cons, hent, projectElemMatch_notfound sch {} d p q a ha hx]
+    simp only [projProcess_nil, projectFinish, PState.elemMatchMark, List.nil_append,
+      Bool.false_eq_true, ↓reduceIte, List.isEmpty_nil, Bool.not_true, Bool.and_false,
+      hput, List.isEmpty_cons, Bool.not_false, List.filter_cons, List.contains_cons, beq_self_eq_true,
+      Bool.true_or, List.filter_nil, List.filterMap_nil, putAll_nil]
+    simp [upsert]
+  · rw [Project_eq, projProcess_cons, hent, projectElemMatch_error sch {} d p q a e ha hx]
+
+/-! ## §8 the integer arguments: range, and absence of overflow in the Go arithmetic -/
+
+/-- Go's `int(x)` of a well-formed numeric `$slice` argument is an int64 -/
+theorem sliceInt_range (v : V) (k : Int) (hw : v.wf = true) (hk : sliceInt v = some k) :
+    i64Min ≤ k ∧ k ≤ i64Max := by
+  cases v <;> simp only [sliceInt, Option.some.injEq, reduceCtorEq] at hk
+  · next n =>
+    subst hk
+    simp only [V.wf, inI32, Bool.and_eq_true, i32Min, i32Max] at hw
+    simp only [i64Min, i64Max]
+    have h1 := of_decide_eq_true hw.1
+    have h2 := of_decide_eq_true hw.2
+    omega
+  · next n =>
+    subst hk
+    simpa [V.wf, inI64] using hw
+  · next b =>
+    subst hk
+    simp only [sliceInt.f64TruncInt']
+    split
+    · split
+      · assumption
+      · simp [i64Min, i64Max]
+    · simp [i64Min, i64Max]
+
+/-- every intermediate value the Go code computes for `$slice: [skip, limit]` on an array of length
+    `n` is an int64 (so the model's unbounded `Int` arithmetic is the machine arithmetic): `n + skip`
+    (only computed for `skip < 0`), `n - start`, and `start + limit` (only computed when
+    `limit < n - start`). -/
+theorem slice_pair_no_overflow (n skip limit : Int) (hn : 0 ≤ n ∧ n ≤ i64Max)
+    (hs : i64Min ≤ skip ∧ skip ≤ i64Max) (hl : 0 ≤ limit ∧ limit ≤ i64Max) :
+    let start : Int := if skip < 0 then (if n + skip < 0 then 0 else n + skip) else (if skip > n then n else skip)
+    (skip < 0 → i64Min ≤ n + skip ∧ n + skip ≤ i64Max) ∧
+    (0 ≤ start ∧ start ≤ n) ∧ (0 ≤ n - start ∧ n - start ≤ i64Max) ∧
+    (limit < n - start → 0 ≤ start + limit ∧ start + limit ≤ n) := by
+  intro start
+  simp only [i64Min, i64Max] at *
+  have hstart : 0 ≤ start ∧ start ≤ n := by
+    simp only [start]; split <;> split <;> omega
+  exact ⟨fun h => by omega, hstart, by omega, fun h => by omega⟩
+
+/-- … and for `$slice: k`: `-n`, and `n + k` (only computed when `-n < k < 0`). Note that `-k` is
+    never computed (it would overflow for `k = MinInt64`). -/
+theorem slice_count_no_overflow (n k : Int) (hn : 0 ≤ n ∧ n ≤ i64Max) (_hk : i64Min ≤ k ∧ k ≤ i64Max) :
+    (i64Min ≤ -n ∧ -n ≤ i64Max) ∧ (k < 0 → k > -n → 0 ≤ n + k ∧ n + k ≤ n) := by
+  simp only [i64Min, i64Max] at *
+  exact ⟨by omega, fun h1 h2 => by omega⟩
 
 end Lungo
